@@ -109,7 +109,18 @@ func newWarcFieldsBlock(options *warcRecordOptions, _ *WarcFields, rb io.Reader,
 		}
 	}
 
-	if options.fixWarcFieldsBlockErrors && !blockValidation.Valid() && wfb.warcFields != nil {
+	needsFix := !blockValidation.Valid()
+	if options.fixWarcFieldsBlockErrors && options.errSyntax == ErrIgnore && wfb.warcFields != nil {
+		// With the syntax policy at ErrIgnore the parser records nothing, so the defects to repair are looked for in a
+		// second pass. Whether a block is repaired must not depend on whether its defects are reported.
+		detectOpts := *options
+		detectOpts.errSyntax = ErrWarn
+		detected := Validation{}
+		if _, e := (&warcfieldsParser{&detectOpts}).Parse(bufio.NewReader(bytes.NewReader(wfb.content)), &detected, &position{}); e == nil {
+			needsFix = !detected.Valid()
+		}
+	}
+	if options.fixWarcFieldsBlockErrors && needsFix && wfb.warcFields != nil {
 		// Write corrected warc fields block to content buffer
 		b := bytes.Buffer{}
 		_, err = wfb.WarcFields().Write(&b)
